@@ -47,6 +47,8 @@ def gen_cases(tier, seed):
                              "target": ["short_r", "short_s_high_bit"][i % 2]}
 
 
+    for i in range(3 if q else 30):
+        yield "arg_forms", {"salt": rng.getrandbits(40)}
     for i in range(8 if q else 100):
         yield "sign_message", {"n_in": rng.randrange(1, 4), "n_out": rng.randrange(1, 4), "salt": rng.getrandbits(40)}
 
@@ -101,6 +103,17 @@ def run_case(kind, params, ctx):
         return
     if kind == "sign_message":
         _sign_message(ctx, params, wm)
+        return
+    if kind == "arg_forms":
+        from .common import arg_forms
+        rng = rng_for("C11af", params["salt"])
+        vin = {"txid": rand_bytes(rng, 32).hex(), "vout": 1, "script": "", "sequence": 0xFFFFFFFE}
+        vout = {"value": 12345, "script": rand_bytes(rng, 25).hex()}
+        sc = rand_bytes(rng, 25)
+        for flag in (1, 0x83):
+            arg_forms(ctx, "witness_message", lambda a, b, c: wm([a, a[::-1]], 1, 5000, c, [b, b], version=2, locktime=3, sighash_flag=flag),
+                      [txref.ser_vin(vin), txref.ser_vout(vout), cs.encode(len(sc)) + sc], prop_exc=(ContractViolation,))
+        ctx.nontrivial()
         return
     rng = rng_for("C11", params["salt"])
     n_in, n_out = params["n_in"], params["n_out"]
